@@ -12,7 +12,8 @@ def _series(y0, m0, vals):
 
 
 def _record(y0, m0, vals, interp, sed):
-    daily = [[int(t.year), int(t.month), int(t.day), int(round(float(v) * 1e6))]
+    # a missing / infinite daily value is logged as a token no month total can absorb
+    daily = [[int(t.year), int(t.month), int(t.day), int(round(float(v) * 1e6)) if np.isfinite(v) and abs(v) < 2000 else -2000000000]
              for t, v in zip(sed.index, sed.values)]
     return {"y0": y0, "m0": m0, "vals": [int(v) for v in vals], "interp": interp, "daily": daily}
 
@@ -61,6 +62,10 @@ def run(ctx):
             sed = dutils.monthly2daily(_series(y0, m0, vals), interp)
         except Exception as e:
             ctx.violation("monthly2daily:%s:exception" % interp, repr(e),
+                          {"y0": y0, "m0": m0, "vals": vals, "interp": interp})
+            continue
+        if np.isnan(sed.values).any():
+            ctx.violation("monthly2daily:%s:nan" % interp, "NaN in output for valid input",
                           {"y0": y0, "m0": m0, "vals": vals, "interp": interp})
             continue
         recs.append(_record(y0, m0, vals, interp, sed))
